@@ -31,6 +31,8 @@ def variants(meta):
             out.append(("End[syscall]", name, dict(base, **{str(c["IS_SYSCALL_FLAG"]): 1})))
         else:
             out.append((name, name, {}))
+        if name == "U32div":
+            out.append(("U32div[rem<2^32]", name, {}))
     return out
 
 
